@@ -4,6 +4,7 @@ import re
 
 from ..core import AnalysisError
 from .. import cfront as C
+from .. import cgsa, gsa
 
 EXPLANATION = ('clang AST of girepository/girepository.c (and girmodule.c for the producer side of the dependency '
                'string): the two comparators are evaluated over EVERY ordering of their operands (finite: 3x3) and '
@@ -105,40 +106,44 @@ def check(ctx):
     # ------------------------------------------------------------------ R1 comparators, exhaustively
     r1 = ctx.rule('R1', 'comparators over every ordering of their operands: lexicographic / newer first then earlier directory', floor=20)
     f = tu.func('compare_version')
-    body = tu.body(f)
-    # operands are the locals filled by parse_version(vN, &vN_major, &vN_minor)
-    pv = C.calls(body, 'parse_version')
-    names = []
-    for c in pv:
-        a = C.call_args(c)
-        if len(a) != 3:
-            raise AnalysisError('parse_version call shape')
-        vs = C.declref(a[0])
-        outs = []
-        for x in a[1:]:
-            x = C.strip(x)
-            if x.get('kind') != 'UnaryOperator' or x.get('opcode') != '&':
-                raise AnalysisError('parse_version out-argument shape')
-            outs.append(C.declref(C.kids(x)[0]))
-        names.append((vs, outs[0], outs[1]))
+    CVS = cgsa.summarise(ctx, REL, 'compare_version', opaque=('parse_version',))
+    pvc = [e for e in CVS.effects if e.kind == 'call' and e.target == 'parse_version']
     params = [p['name'] for p in tu.params(f)]
-    if len(names) != 2 or [n[0] for n in names] != params:
-        raise AnalysisError('compare_version: expected parse_version (v1, ...) and parse_version (v2, ...)')
-    (_, maj1, min1), (_, maj2, min2) = names
-    rets = [n for n in C.walk(body) if n.get('kind') == 'ReturnStmt']
-    nonconst = [tu.text_of(n) for n in rets if C.int_value(C.kids(n)[0]) is None]
+    if len(pvc) != 2 or [e.args[0] for e in pvc] != params or not all(len(e.args) == 3 and e.args[1].startswith('&') and e.args[2].startswith('&') for e in pvc):
+        raise AnalysisError('compare_version: expected parse_version (v1, &major, &minor) and parse_version (v2, &major, &minor)')
+    (maj1, min1), (maj2, min2) = [(e.args[1][1:], e.args[2][1:]) for e in pvc]
+    rets = [e for e in CVS.effects if e.kind == 'return']
+    nonconst = [e.value for e in rets if not re.match(r'^-?\d+$', e.value)]
     r1.check(not nonconst, 'compare_version decides by comparisons only', REL, tu.line(f),
              'compare_version computes its result arithmetically (%s): the result is not the lexicographic order of (major, minor) '
              '— e.g. 1.12 vs 2.0 — and can overflow' % nonconst, detail='all returns are integer constants')
+
+    def order_val(S, rel):
+        """truth values of the comparison atoms of S under {(x, y): '<' | '=' | '>'}"""
+        val = {}
+        for a_ in S.atoms():
+            mm = re.match(r'^(\S+) (<|==) (\S+)$', a_)
+            if not mm:
+                continue
+            x, op, y = mm.groups()
+            c = rel.get((x, y))
+            if c is None and (y, x) in rel:
+                c = {'<': '>', '>': '<', '=': '='}[rel[(y, x)]]
+            if c is None:
+                continue
+            val[a_] = (c == '<') if op == '<' else (c == '=')
+        return val
+
+    def result(S, val):
+        got = sorted(set(e.value for e in S.effects if e.kind == 'return' and e.fn == S.qual and gsa.can_hold(e.cond, val)))
+        return int(got[0]) if len(got) == 1 and re.match(r'^-?\d+$', got[0]) else None
     if not nonconst:
-        for a, b in itertools.product('<=>', repeat=2):
-            o = Orderings(tu, {(maj1, maj2): a, (min1, min2): b})
-            res = o.run(body)
-            got = C.int_value(res[1]) if res else None
-            exp = sign(a) if a != '=' else sign(b)
-            r1.check(got is not None and (got > 0) - (got < 0) == exp, 'compare_version major%smajor minor%sminor' % (a, b), REL, tu.line(f),
+        for a, b_ in itertools.product('<=>', repeat=2):
+            got = result(CVS, order_val(CVS, {(maj1, maj2): a, (min1, min2): b_}))
+            exp = sign(a) if a != '=' else sign(b_)
+            r1.check(got is not None and (got > 0) - (got < 0) == exp, 'compare_version major%smajor minor%sminor' % (a, b_), REL, tu.line(f),
                      'compare_version returns %s when v1.major %s v2.major and v1.minor %s v2.minor (expected sign %d): versions are '
-                     'not ordered numerically by major then minor' % (got, a, b, exp), detail={'returns': got})
+                     'not ordered numerically by major then minor' % (got, a, b_, exp), detail={'returns': got})
     # parse_version rejects trailing garbage
     pf = tu.func('parse_version')
     falses = []
@@ -151,41 +156,26 @@ def check(ctx):
              detail=falses)
     # compare_candidate_reverse
     g = tu.func('compare_candidate_reverse')
-    gb = tu.body(g)
+    CCR = cgsa.summarise(ctx, REL, 'compare_candidate_reverse', opaque=('compare_version',))
     p1, p2 = [p['name'] for p in tu.params(g)]
-    inits = [(d.get('name'), C.kids(d)) for ds in C.walk(gb) if ds.get('kind') == 'DeclStmt' for d in C.kids(ds) if d.get('kind') == 'VarDecl']
-    resvar = None
-    for name, ch in inits:
-        if ch and C.callee(C.strip(ch[0])) == 'compare_version':
-            args = [C.member_path(a) for a in C.call_args(C.strip(ch[0]))]
-            if args == ['%s->version' % p1, '%s->version' % p2]:
-                resvar = name
-    r1.check(resvar is not None, 'candidate order starts from compare_version (c1->version, c2->version)', REL, tu.line(g),
-             'compare_candidate_reverse does not compare the two versions in argument order')
-    rets = [n for n in C.walk(gb) if n.get('kind') == 'ReturnStmt']
-    nonconst = [tu.text_of(n) for n in rets if C.int_value(C.kids(n)[0]) is None]
+    cvc = [e for e in CCR.effects if e.kind == 'call' and e.target == 'compare_version']
+    resok = len(cvc) >= 1 and all(e.args == ['%s->version' % p1, '%s->version' % p2] for e in cvc)
+    r1.check(resok, 'candidate order starts from compare_version (c1->version, c2->version)', REL, tu.line(g),
+             'compare_candidate_reverse does not compare the two versions in argument order: %s' % [e.value for e in cvc])
+    rets = [e for e in CCR.effects if e.kind == 'return']
+    nonconst = [e.value for e in rets if not re.match(r'^-?\d+$', e.value)]
     r1.check(not nonconst, 'compare_candidate_reverse decides by comparisons only', REL, tu.line(g), 'non-constant returns: %s' % nonconst)
-    if resvar and not nonconst:
+    if resok and not nonconst:
+        R = cvc[0].value
         pi1, pi2 = '%s->path_index' % p1, '%s->path_index' % p2
-        for a, b in itertools.product('<=>', repeat=2):
-            o = Orderings(tu, {(resvar, '0'): a, (pi1, pi2): b})
-            # integer literal 0 is handled as ('int', 0): map the symbolic result against it
-            o.rel = {(pi1, pi2): b}
-            o_cmp = o.cmp
-
-            def cmp(x, y, a=a, o_cmp=o_cmp):
-                if x == ('sym', resvar) and y == ('int', 0):
-                    return a
-                if y == ('sym', resvar) and x == ('int', 0):
-                    return {'<': '>', '>': '<', '=': '='}[a]
-                return o_cmp(x, y)
-            o.cmp = cmp
-            res = o.run(gb)
-            got = C.int_value(res[1]) if res else None
-            exp = -sign(a) if a != '=' else sign(b)
-            r1.check(got is not None and (got > 0) - (got < 0) == exp, 'compare_candidate_reverse version%s path_index%s' % (a, b), REL, tu.line(g),
+        for a, b_ in itertools.product('<=>', repeat=2):
+            val = order_val(CCR, {(pi1, pi2): b_, (R, '0'): a})
+            val[R] = a != '='           # truthiness of the comparison result (result != 0)
+            got = result(CCR, val)
+            exp = -sign(a) if a != '=' else sign(b_)
+            r1.check(got is not None and (got > 0) - (got < 0) == exp, 'compare_candidate_reverse version%s path_index%s' % (a, b_), REL, tu.line(g),
                      'candidate with version %s the other and directory index %s the other sorts %s (expected %d): the elected typelib is not '
-                     'the newest version / the earliest directory among equals' % (a, b, got, exp), detail={'returns': got})
+                     'the newest version / the earliest directory among equals' % (a, b_, got, exp), detail={'returns': got})
     r1.exhaustive = True
     # election: sort with compare_candidate_reverse and take the head
     fl = tu.func('find_namespace_latest')
@@ -198,45 +188,55 @@ def check(ctx):
     # ------------------------------------------------------------------ R2 acceptance guards
     r2 = ctx.rule('R2', 'require_internal: success only after namespace, version and registration checks; error codes', floor=6)
     rq = tu.func('require_internal')
-    rb = tu.body(rq)
-    succ = [(l, r, st) for l, r, st in C.assignments(rb) if C.declref(l) == 'ret' and C.declref(r) == 'typelib']
-    if len(succ) != 1:
-        raise AnalysisError('require_internal: `ret = typelib` not found exactly once')
-    gs = [(nospace(tu.text_of(c)), pol) for c, pol, o in C.guards(tu, succ[0][2])]
+    RQ = cgsa.summarise(ctx, REL, 'require_internal', opaque=('register_internal', 'find_namespace_version', 'find_namespace_latest', 'get_registered_status', 'check_version_conflict'))
+    NUL = ('0', '((void*)0)', 'NULL', '')
+    succ = [e for e in RQ.effects if e.kind == 'return' and e.fn == 'require_internal' and e.value not in NUL and 'get_registered_status' not in e.value]
+    if len(succ) < 1:
+        raise AnalysisError('require_internal: success return of the freshly loaded typelib not found')
     need = {
-        'file found': ('mfile==NULL', False),
-        'typelib loaded from the mapped file': ('!typelib', False),
-        'namespace in the file equals the requested one': ('strcmp(typelib_namespace,namespace)!=0', False),
-        'version in the file equals the requested one': ('version!=NULL&&strcmp(typelib_version,version)!=0', False),
-        'registration (incl. dependencies) succeeded': ('!register_internal(repository,path,allow_lazy,typelib,error)', False),
+        'file found': (r'^find_namespace_(version|latest)\(|^g_mapped_file_new\(|^mfile$', False),
+        'typelib loaded from the mapped file': (r'^g_typelib_new_from_mapped_file\(', False),
+        'namespace in the file equals the requested one': (r'^strcmp\(.*namespace.*,namespace\)$', True),
+        'version in the file equals the requested one': (r'^strcmp\(.*,version\)$', True),
+        'registration (incl. dependencies) succeeded': (r'^register_internal\(', False),
     }
-    for what, (txt, pol) in need.items():
-        r2.check((txt, pol) in gs, what, REL, tu.line(succ[0][2]),
-                 'require_internal can return the typelib without the check "%s" (guards on the success path: %s)' % (what, [g for g, p in gs]),
-                 detail=txt)
-    # return value is `ret` at the single exit label and NULL-initialised
+    for what, (pat, bad) in need.items():
+        for e in succ:
+            names = [a_ for a_ in gsa.atoms(e.cond) if re.search(pat, a_)]
+            extra = {'version': True} if 'version in the file' in what else {}
+            v_ = dict((a_, bad) for a_ in names)
+            v_.update(dict((a_, val_) for a_, val_ in extra.items() if a_ in gsa.atoms(e.cond)))
+            if 'version in the file' in what and not gsa.can_hold(e.cond, {'version': True}):
+                continue          # the any-version path has no requested version to compare with
+            r2.check(bool(names) and not gsa.can_hold(e.cond, v_), what, REL, e.line,
+                     'require_internal can return the typelib without the check "%s" (success path: %s)' % (what, gsa.show(e.cond)[:300]), detail=names[:2])
     errs = {}
-    for c in C.calls(rb, 'g_set_error'):
-        a = C.call_args(c)
-        code = C.declref(a[2])
-        conds = [nospace(tu.text_of(x)) + ('' if pol else '=F') for x, pol, o in C.guards(tu, c)]
-        errs.setdefault(code, []).append(conds)
-    r2.check(any('version_conflict!=NULL' in ' '.join(c) for c in errs.get('G_IREPOSITORY_ERROR_NAMESPACE_VERSION_CONFLICT', [])), 'version conflict error', REL,
-             tu.line(rq), 'no NAMESPACE_VERSION_CONFLICT error under version_conflict != NULL: %s' % sorted(errs))
-    r2.check(any('mfile==NULL' in ' '.join(c) for c in errs.get('G_IREPOSITORY_ERROR_TYPELIB_NOT_FOUND', [])), 'not-found error', REL, tu.line(rq),
+    for c in [e for e in RQ.effects if e.kind == 'call' and e.target == 'g_set_error']:
+        code = c.args[2] if len(c.args) > 2 else '?'
+        errs.setdefault(code, []).append(c)
+    vc = errs.get('G_IREPOSITORY_ERROR_NAMESPACE_VERSION_CONFLICT', [])
+    r2.check(any(any(re.search(r'version_conflict$', a_) for a_ in gsa.atoms(c.cond)) and not gsa.can_hold(c.cond, dict((a_, False) for a_ in gsa.atoms(c.cond) if re.search(r'version_conflict$', a_))) for c in vc),
+             'version conflict error', REL, tu.line(rq), 'no NAMESPACE_VERSION_CONFLICT error under version_conflict != NULL: %s' % sorted(errs))
+    nf = errs.get('G_IREPOSITORY_ERROR_TYPELIB_NOT_FOUND', [])
+    MF = r'^g_mapped_file_new\(|^mfile$|^find_namespace_(version|latest)\('
+    r2.check(any(any(re.search(MF, a_) for a_ in gsa.atoms(c.cond)) and not gsa.can_hold(c.cond, dict((a_, True) for a_ in gsa.atoms(c.cond) if re.search(MF, a_))) and
+                 gsa.can_hold(c.cond, dict((a_, False) for a_ in gsa.atoms(c.cond) if re.search(MF, a_))) for c in nf), 'not-found error', REL, tu.line(rq),
              'no TYPELIB_NOT_FOUND error when no file was found')
-    r2.check(len(errs.get('G_IREPOSITORY_ERROR_NAMESPACE_MISMATCH', [])) == 2, 'mismatch errors', REL, tu.line(rq), 'NAMESPACE_MISMATCH errors: %s' % errs.get('G_IREPOSITORY_ERROR_NAMESPACE_MISMATCH'))
+    r2.check(len(set(c.line for c in errs.get('G_IREPOSITORY_ERROR_NAMESPACE_MISMATCH', []))) == 2, 'mismatch errors', REL, tu.line(rq), 'NAMESPACE_MISMATCH errors: %s' % [c.line for c in errs.get('G_IREPOSITORY_ERROR_NAMESPACE_MISMATCH', [])])
     # already registered: returned as is; conflict -> NULL
     cv = tu.func('check_version_conflict')
-    nulls = []
-    for n in C.walk(tu.body(cv)):
-        if n.get('kind') == 'ReturnStmt':
-            v = C.strip(C.kids(n)[0])
-            txt = nospace(tu.text_of(C.kids(n)[0]))
-            gg = [nospace(tu.text_of(c)) for c, pol, o in C.guards(tu, n) if pol]
-            nulls.append((txt, gg))
-    r2.check(any(t in ('NULL', '((void*)0)') and any('strcmp(expected_version,loaded_version)!=0' in x for x in g_) for t, g_ in nulls), 'loaded version differs -> NULL', REL,
-             tu.line(cv), 'check_version_conflict: %s' % nulls)
+    CVC = cgsa.summarise(ctx, REL, 'check_version_conflict')
+    nulls = [e for e in CVC.effects if e.kind == 'return' and e.value in NUL]
+    okc = False
+    for e in nulls:
+        sc = [a_ for a_ in gsa.atoms(e.cond) if re.match(r'^strcmp\(', a_) and 'version' in a_]
+        if sc and not gsa.can_hold(e.cond, dict((a_, False) for a_ in sc)) and gsa.can_hold(e.cond, dict((a_, True) for a_ in sc)):
+            okc = True
+    nonnull_bad = [e for e in CVC.effects if e.kind == 'return' and e.value not in NUL and
+                   gsa.can_hold(e.cond, dict([(a_, True) for a_ in gsa.atoms(e.cond) if re.match(r'^strcmp\(', a_) and 'version' in a_] + [(a_, True) for a_ in gsa.atoms(e.cond) if re.match(r'^expected_version$', a_)]))
+                   and any(re.match(r'^strcmp\(', a_) for a_ in gsa.atoms(e.cond))]
+    r2.check(okc and not nonnull_bad, 'loaded version differs -> NULL', REL,
+             tu.line(cv), 'check_version_conflict: NULL returns %s' % [gsa.show(e.cond)[:120] for e in nulls])
     # exact-version file name
     fv = tu.func('find_namespace_version')
     fmt = [C.string_value(C.call_args(c)[0]) for c in C.calls(fv, 'g_strdup_printf')]
@@ -250,11 +250,12 @@ def check(ctx):
         hdr = [nospace(tu.text_of(n)).split(')')[0] for n in loops]
         r3.check(any(h.startswith('for(ldir=search_path;ldir;ldir=ldir->next') for h in hdr), '%s walks search_path front to back' % fn, REL, tu.line(f_),
                  'loop headers: %s' % hdr)
-    # first hit: break after *path_ret = path
-    loops = [n for n in C.walk(tu.body(fv)) if n.get('kind') == 'ForStmt']
-    lb = C.kids(loops[0])[-1]
-    tail = [s.get('kind') for s in C.kids(lb)][-2:]
-    r3.check(tail[-1] == 'BreakStmt', 'first directory that has the file wins', REL, tu.line(loops[0]), 'loop body does not end with break: %s' % tail)
+    # first hit: the walk stops where the file was found
+    FV = cgsa.summarise(ctx, REL, 'find_namespace_version')
+    hits = [e for e in FV.effects if e.kind == 'store' and e.target == '*%s' % FV.P(3) and e.loops]
+    stops = [e for e in FV.effects if e.kind in ('break', 'return', 'goto') and e.loops]
+    r3.check(bool(hits) and all(any(gsa.implies(h.cond, x.cond) for x in stops) for h in hits), 'first directory that has the file wins', REL, tu.line(fv),
+             'after a directory with the file is found the walk goes on to later directories: hits %s' % [gsa.show(h.cond)[-120:] for h in hits])
     pp = tu.func('g_irepository_prepend_search_path')
     pre = [(l, r, st) for l, r, st in C.assignments(tu.body(pp)) if C.declref(l) == 'typelib_search_path']
     ok = len(pre) == 1 and C.callee(C.strip(pre[0][1])) == 'g_slist_prepend' and not C.guards(tu, pre[0][2]) \
@@ -296,31 +297,37 @@ def check(ctx):
     # ------------------------------------------------------------------ R4 dependencies at the recorded version
     r4 = ctx.rule('R4', 'every recorded dependency is required unconditionally at its recorded version; separator agreement', floor=6)
     ld = tu.func('load_dependencies_recurse')
-    lb = tu.body(ld)
-    req = C.calls(lb, ('g_irepository_require', 'require_internal'))
-    if len(req) != 1:
+    LD = cgsa.summarise(ctx, REL, 'load_dependencies_recurse', opaque=('get_typelib_dependencies',))
+    req = [e for e in LD.effects if e.kind == 'call' and e.target in ('g_irepository_require', 'require_internal')]
+    if len(set(e.line for e in req)) != 1:
         raise AnalysisError('load_dependencies_recurse: expected one require call')
-    loops = [n for n in C.walk(lb) if n.get('kind') == 'ForStmt']
-    if len(loops) != 1:
-        raise AnalysisError('load_dependencies_recurse: expected one loop over the dependencies')
-    loop_body = C.kids(loops[0])[-1]
-    gs = C.guards(tu, req[0], stop=loops[0])
-    early = [n for n in C.walk(loop_body) if n.get('kind') in ('ContinueStmt', 'BreakStmt')]
-    # the call is the condition of `if (!require(...))`: the call itself must not be control dependent on anything inside the loop
-    dep_guards = [tu.text_of(c) for c, pol, o in gs if not any(x is req[0] for x in C.walk(c))]
-    r4.check(not dep_guards and not early, 'every dependency is required', REL, tu.line(req[0]),
-             'inside the dependency loop the require call is skipped under %s%s: a dependency recorded at one version is not checked against '
-             'an already loaded different version' % (dep_guards, ' / continue' if early else ''))
-    a = C.call_args(req[0])
-    r4.check(C.declref(a[1]) == 'dependency_namespace' and C.declref(a[2]) == 'dependency_version', 'required with recorded namespace and version', REL,
-             tu.line(req[0]), 'require arguments: %s' % [tu.text_of(x) for x in a[:3]])
-    asg = {C.declref(l): nospace(tu.text_of(r)) for l, r, st in C.assignments(lb) if C.declref(l)}
-    r4.check(asg.get('last_dash') == "strrchr(dependency,'-')" and asg.get('dependency_version') == 'last_dash+1' and
-             asg.get('dependency_namespace') == 'g_strndup(dependency,last_dash-dependency)', 'entry split at the last dash', REL, tu.line(ld),
-             'dependency entries are not split at the LAST dash (namespaces may contain dashes): %s' % asg, detail=asg)
-    # failure propagates: return FALSE inside if (!require)
-    fails = [n for n in C.walk(loop_body) if n.get('kind') == 'ReturnStmt' and C.int_value(C.kids(n)[0]) == 0]
-    r4.check(len(fails) == 1, 'failed dependency fails the load', REL, tu.line(ld), 'no `return FALSE` when a dependency cannot be required')
+    flags = set(re.findall(r'@carried:(\w+)#', ' '.join(LD.atoms())))
+    for e in req[:1]:
+        foreign = [a_ for a_ in gsa.atoms(gsa.disj(*[x.cond for x in req])) if not a_.startswith('@') and not re.match(r'^\w+\[\w+\]$|^\w+$', a_) and not a_.startswith('get_typelib_dependencies(')
+                   and not a_.startswith('g_irepository_require(') and not a_.startswith('require_internal(')]
+        r4.check(bool(e.loops) and not foreign, 'every dependency is required', REL, e.line,
+                 'inside the dependency loop the require call is skipped under %s: a dependency recorded at one version is not checked against '
+                 'an already loaded different version' % foreign)
+    okargs = bool(req)
+    splits = []
+    for e in req:
+        a1 = e.args[1] if len(e.args) > 2 else ''
+        a2 = e.args[2] if len(e.args) > 2 else ''
+        mm = re.match(r"^g_strndup\((.+),strrchr\(\1,45\)-\1\)$", a1)
+        m2 = re.match(r"^strrchr\((.+),45\)\+1$", a2)
+        splits.append((a1, a2))
+        if not (mm and m2 and mm.group(1) == m2.group(1)):
+            okargs = False
+    r4.check(okargs, 'required with recorded namespace and version', REL, req[0].line, 'require arguments: %s' % splits[:2])
+    r4.check(okargs, 'entry split at the last dash', REL, tu.line(ld),
+             'dependency entries are not split at the LAST dash (namespaces may contain dashes): %s' % splits[:2], detail=splits[:2])
+    REQ = r'^(g_irepository_require|require_internal)\('
+    fails = [e for e in LD.effects if e.kind == 'return' and e.fn == 'load_dependencies_recurse' and e.value == '0' and
+             any(re.match(REQ, a_) for a_ in gsa.atoms(e.cond)) and not gsa.can_hold(e.cond, dict((a_, True) for a_ in gsa.atoms(e.cond) if re.match(REQ, a_)))]
+    flagged = [e for e in LD.effects if e.kind == 'local' and e.value == '0' and e.target in flags and any(re.match(REQ, a_) for a_ in gsa.atoms(e.cond))
+               and not gsa.can_hold(e.cond, dict((a_, True) for a_ in gsa.atoms(e.cond) if re.match(REQ, a_)))]
+    okfail = bool(fails) or (bool(flagged) and any(x.kind == 'return' and x.value == flagged[0].target or (x.kind == 'return' and x.value in ('0',)) for x in LD.effects if x.fn == 'load_dependencies_recurse'))
+    r4.check(okfail, 'failed dependency fails the load', REL, tu.line(ld), 'no failure result when a dependency cannot be required')
     ri = tu.func('register_internal')
     rib = tu.body(ri)
     ldc = C.calls(rib, 'load_dependencies_recurse')
